@@ -106,8 +106,8 @@ def build_extracted(name):
     if not srcs:
         raise CheckBroken("extraction", "no Extract/Extract%s.v" % name.capitalize())
     src = srcs[0]
-    cmx = os.path.join(EXTRACTED, "model_%s.cmx" % name)
-    pcmx = os.path.join(EXTRACTED, "prelude_%s.cmx" % name)
+    cmx = os.path.join(EXTRACTED, "model_%s.cmo" % name)
+    pcmx = os.path.join(EXTRACTED, "prelude_%s.cmo" % name)
     newest = max([os.path.getmtime(f) for f in glob.glob(os.path.join(THEORIES, "Model", "*.vo"))] +
                  [os.path.getmtime(src), os.path.getmtime(os.path.join(COQ, "driver", "prelude.ml"))])
     if os.path.exists(cmx) and os.path.exists(pcmx) and min(os.path.getmtime(cmx), os.path.getmtime(pcmx)) >= newest:
@@ -122,7 +122,8 @@ def build_extracted(name):
         raise CheckBroken("extraction of %s" % name, out[-3000:])
     pre = open(os.path.join(COQ, "driver", "prelude.ml")).read().replace("MODEL_MODULE", "Model_%s" % name)
     open(os.path.join(EXTRACTED, "prelude_%s.ml" % name), "w").write(pre)
-    rc, out = sh("ocamlfind ocamlopt -w -a -c model_%s.mli model_%s.ml prelude_%s.ml" % (name, name, name), cwd=EXTRACTED)
+    # bytecode: generated case files are large literals, which ocamlc compiles ~8x faster than ocamlopt
+    rc, out = sh("ocamlfind ocamlc -w -a -c model_%s.mli model_%s.ml prelude_%s.ml" % (name, name, name), cwd=EXTRACTED)
     if rc != 0:
         raise CheckBroken("ocaml build of the extracted model %s" % name, out[-3000:])
 
@@ -269,13 +270,13 @@ def run_ocaml_shards(ml_files, what, unit):
     def one(ml):
         exe = ml[:-3] + ".exe"
         d = os.path.dirname(ml)
-        rc, out = sh("ocamlfind ocamlopt -w -a -I %s %s/model_%s.cmx %s/prelude_%s.cmx %s -o %s" %
+        rc, out = sh("ulimit -s unlimited; ocamlfind ocamlc -w -a -I %s %s/model_%s.cmo %s/prelude_%s.cmo %s -o %s" %
                      (EXTRACTED, EXTRACTED, unit, EXTRACTED, unit, os.path.basename(ml), os.path.basename(exe)),
                      cwd=d, timeout=1800)
         if rc != 0:
             return ("compile", ml, out[-2000:])
         rc, out = sh("ulimit -s unlimited; timeout 1800 ./%s" % os.path.basename(exe), cwd=d, timeout=1900)
-        for ext in (".exe", ".cmx", ".cmi", ".o"):
+        for ext in (".exe", ".cmx", ".cmi", ".o", ".cmo"):
             try:
                 os.remove(ml[:-3] + ext)
             except OSError:
